@@ -286,6 +286,12 @@ class Interp:
         m = re.match(r"^(-?\d+)_(\w+)$", t)
         if m:
             return z3.BitVecVal(int(m.group(1)), INTW[m.group(2)])
+        m = re.match(r"^(?:core::num::<impl )?(usize|u64|u32|u16|u8|u128|isize|i64|i32|i16|i8|i128)>?::(MIN|MAX|BITS)$", t)
+        if m:
+            w = INTW[m.group(1)]; sg = m.group(1) in SIGNED
+            if m.group(2) == "BITS": return z3.BitVecVal(w, 32)
+            if m.group(2) == "MAX": return z3.BitVecVal((1 << (w - 1)) - 1 if sg else (1 << w) - 1, w)
+            return z3.BitVecVal(-(1 << (w - 1)) if sg else 0, w)
         if t.startswith('"') or t.startswith("b\""):
             return Opaque("str " + t[:40])
         if t.startswith("ZeroSized"):
@@ -295,6 +301,17 @@ class Interp:
             return Opaque("zst " + ty[:60])
         if t == "()":
             return None
+        m = re.match(r"^(.*)::(\w+)::promoted\[(\d+)\]$", t)
+        if m:
+            suffix = f"::{m.group(2)}::promoted[{m.group(3)}]"
+            cands = [n for n in self.prog.raw if n.startswith("const ") and n.endswith(suffix)]
+            if len(cands) > 1:
+                mod = strip_generics(m.group(1)).split("::")[-2:] if "::" in m.group(1) else []
+                c2 = [n for n in cands if all(x.lower() in n.lower() for x in mod[:1])]
+                cands = c2 or cands
+            if len(cands) >= 1:
+                return self.call(cands[0], [])
+            raise Unsupported("promoted constant not found: " + t)
         m = re.match(r"^([\w:<>]+)::(\w+)$", t)
         if m:
             en = strip_generics(m.group(1)).split("::")[-1]
@@ -364,7 +381,7 @@ class Interp:
             val = v.variant
             if v.name == "Ordering":
                 val = v.variant - 1
-            return z3.BitVecVal(val, 64)
+            return z3.BitVecVal(val, INTW.get((dest_ty or "").strip(), 64))
         if k == "tuple":
             return Agg("tuple", "()", [self.operand(frame, o) for o in rv[1]])
         if k == "closure":
@@ -408,7 +425,7 @@ class Interp:
             if op == "BitOr": return z3.Or(a, b)
             if op == "BitXor": return z3.Xor(a, b)
         if not (z3.is_bv(a) and z3.is_bv(b)):
-            raise Unsupported(f"binop {op} on {a!r}, {b!r}")
+            raise Unsupported(f"binop {op} on {str(a)[:80]!r}, {str(b)[:80]!r}")
         if op in ("Shl", "Shr", "ShlUnchecked", "ShrUnchecked") and a.size() != b.size():
             b = z3.ZeroExt(a.size() - b.size(), b) if b.size() < a.size() else z3.Extract(a.size() - 1, 0, b)
         w = a.size()
@@ -458,7 +475,7 @@ class Interp:
                 raise Unsupported("step limit in " + name)
             blk = fn.blocks[bb]
             for place, rv in blk.stmts:
-                v = self.rvalue(fn, frame, rv, None)
+                v = self.rvalue(fn, frame, rv, fn.locals.get(place[1]) if place[0] == "local" else None)
                 self.place_ref(frame, place).set(v)
             t = blk.term
             k = t[0]
